@@ -254,7 +254,7 @@ func inproc(r *vf.Run, subjects []subject) {
 	r.Count("inproc_catalog_constructors_exercised", got)
 	r.Floor("inproc: catalog constructors exercised", got, len(catalogNames()))
 	r.Count("inproc_synthetic_format_x_permset", len(synthCover))
-	r.Floor("inproc: synthetic format x permission subsets", len(synthCover), len(allFormats)*len(permSubsets))
+	r.Floor("inproc: synthetic format x permission subsets", len(synthCover), len(allFormats)*8)
 	r.Floor("inproc: remote updates on characteristics without pw", int(r.Counter("inproc_remote_updates_without_pw")), 1000)
 	r.Floor("inproc: checks on characteristics without pr", int(r.Counter("inproc_unreadable_checks")), 1000)
 	r.Floor("inproc: positive control (a writable characteristic's callback fires)", int(r.Counter("inproc_control_writable_callback_fired")), 100)
